@@ -241,13 +241,32 @@ def parseSubs : List Tok → PRes (List (String × String) × List Tok)
   | .name _ :: rest => errAt [] rest
   | toks => errAt [] toks
 
+/-- sequencing; on error the sub-formulas `pre`, reduced earlier, stay in front of the forest -/
+def PRes.bindF (pre : List Ast) (x : PRes α) (k : α → PRes β) : PRes β :=
+  match x with
+  | .error (fr, e) => .error (pre ++ fr, e)
+  | .ok a => k a
+
 /-- `expr` at binding power `p`: a prefix operand, then the operator loop -/
-@[inline] def exprWith (pre : List Tok → PRes (Ast × List Tok))
+def exprWith (pre : List Tok → PRes (Ast × List Tok))
     (loop : Nat → Ast → List Tok → PRes (Ast × List Tok)) (p : Nat) (toks : List Tok) :
     PRes (Ast × List Tok) :=
-  match pre toks with
-  | .error e => .error e
-  | .ok (a, r) => loop p a r
+  PRes.bindF [] (pre toks) fun ar => loop p ar.1 ar.2
+
+/-- the closing parenthesis of `( e )` -/
+def closeParen (e : Ast) : List Tok → PRes (Ast × List Tok)
+  | .rparen :: r => atomDone e [e] r
+  | r => errAt [e] r
+
+/-- the closing parenthesis of `ite(a, b, c)` -/
+def closeIte (a b c : Ast) : List Tok → PRes (Ast × List Tok)
+  | .rparen :: r => atomDone (.ite a b c) [a, b, c] r
+  | r => errAt [a, b, c] r
+
+/-- a comma between the arguments of `ite`; `done` = arguments already reduced -/
+def expectComma (done : List Ast) (k : List Tok → PRes (Ast × List Tok)) : List Tok → PRes (Ast × List Tok)
+  | .comma :: r => k r
+  | r => errAt done r
 
 mutual
 /-- operand: constant, name, `@n`, `~ e`, `( e )`, `ite(e, e, e)`, binder -/
@@ -263,49 +282,31 @@ def parsePrefix : Nat → List Tok → PRes (Ast × List Tok)
     | .at :: .op .minus :: rest => errAt [] rest
     | .at :: rest => errAt [] rest
     | .not :: rest =>
-      match exprWith (fun t => parsePrefix f t) (fun p a t => parseLoop f p a t) notPrec rest with
-      | .error e => .error e
-      | .ok (e, r) => .ok (.not e, r)
+      PRes.bindF [] (exprWith (fun t => parsePrefix f t) (fun p a t => parseLoop f p a t) notPrec rest)
+        fun er => .ok (.not er.1, er.2)
     | .lparen :: rest =>
-      match exprWith (fun t => parsePrefix f t) (fun p a t => parseLoop f p a t) 0 rest with
-      | .error e => .error e
-      | .ok (e, .rparen :: r) => atomDone e [e] r
-      | .ok (e, r) => errAt [e] r
+      PRes.bindF [] (exprWith (fun t => parsePrefix f t) (fun p a t => parseLoop f p a t) 0 rest)
+        fun er => closeParen er.1 er.2
     | .ite :: .lparen :: rest =>
-      match exprWith (fun t => parsePrefix f t) (fun p a t => parseLoop f p a t) 0 rest with
-      | .error e => .error e
-      | .ok (a, .comma :: r1) =>
-        match exprWith (fun t => parsePrefix f t) (fun p a t => parseLoop f p a t) 0 r1 with
-        | .error (fr, e) => .error (a :: fr, e)
-        | .ok (b, .comma :: r2) =>
-          match exprWith (fun t => parsePrefix f t) (fun p a t => parseLoop f p a t) 0 r2 with
-          | .error (fr, e) => .error (a :: b :: fr, e)
-          | .ok (c, .rparen :: r3) => atomDone (.ite a b c) [a, b, c] r3
-          | .ok (c, r3) => errAt [a, b, c] r3
-        | .ok (b, r2) => errAt [a, b] r2
-      | .ok (a, r1) => errAt [a] r1
+      PRes.bindF [] (exprWith (fun t => parsePrefix f t) (fun p a t => parseLoop f p a t) 0 rest)
+        fun ar => expectComma [ar.1] (fun r1 =>
+          PRes.bindF [ar.1] (exprWith (fun t => parsePrefix f t) (fun p a t => parseLoop f p a t) 0 r1)
+            fun br => expectComma [ar.1, br.1] (fun r2 =>
+              PRes.bindF [ar.1, br.1] (exprWith (fun t => parsePrefix f t) (fun p a t => parseLoop f p a t) 0 r2)
+                fun cr => closeIte ar.1 br.1 cr.1 cr.2) br.2) ar.2
     | .ite :: rest => errAt [] rest
     | .forall_ :: rest =>
-      match parseNames rest with
-      | .error e => .error e
-      | .ok (ns, r) =>
-        match exprWith (fun t => parsePrefix f t) (fun p a t => parseLoop f p a t) bodyPrec r with
-        | .error e => .error e
-        | .ok (e, r') => .ok (.quant true ns e, r')
+      PRes.bindF [] (parseNames rest) fun nr =>
+        PRes.bindF [] (exprWith (fun t => parsePrefix f t) (fun p a t => parseLoop f p a t) bodyPrec nr.2)
+          fun er => .ok (.quant true nr.1 er.1, er.2)
     | .exists_ :: rest =>
-      match parseNames rest with
-      | .error e => .error e
-      | .ok (ns, r) =>
-        match exprWith (fun t => parsePrefix f t) (fun p a t => parseLoop f p a t) bodyPrec r with
-        | .error e => .error e
-        | .ok (e, r') => .ok (.quant false ns e, r')
+      PRes.bindF [] (parseNames rest) fun nr =>
+        PRes.bindF [] (exprWith (fun t => parsePrefix f t) (fun p a t => parseLoop f p a t) bodyPrec nr.2)
+          fun er => .ok (.quant false nr.1 er.1, er.2)
     | .rename :: rest =>
-      match parseSubs rest with
-      | .error e => .error e
-      | .ok (ss, r) =>
-        match exprWith (fun t => parsePrefix f t) (fun p a t => parseLoop f p a t) bodyPrec r with
-        | .error e => .error e
-        | .ok (e, r') => .ok (.subst ss e, r')
+      PRes.bindF [] (parseSubs rest) fun sr =>
+        PRes.bindF [] (exprWith (fun t => parsePrefix f t) (fun p a t => parseLoop f p a t) bodyPrec sr.2)
+          fun er => .ok (.subst sr.1 er.1, er.2)
     | toks => errAt [] toks
 
 /-- operator loop: absorb `op rhs` while `op` binds at least as tightly as `p`;
@@ -316,9 +317,8 @@ def parseLoop : Nat → Nat → Ast → List Tok → PRes (Ast × List Tok)
     match toks with
     | .op o :: rest =>
       if p ≤ o.prec then
-        match exprWith (fun t => parsePrefix f t) (fun p a t => parseLoop f p a t) (o.prec + 1) rest with
-        | .error (fr, e) => .error (lhs :: fr, e)
-        | .ok (rhs, r) => parseLoop f p (.bin o lhs rhs) r
+        PRes.bindF [lhs] (exprWith (fun t => parsePrefix f t) (fun p a t => parseLoop f p a t) (o.prec + 1) rest)
+          fun rr => parseLoop f p (.bin o lhs rr.1) rr.2
       else .ok (lhs, toks)
     | _ => .ok (lhs, toks)
 end
